@@ -14,13 +14,19 @@ PASS_BUDGET = 200
 
 
 @st.composite
-def mlmc_case(draw, tier, with_cv=True, modes=("adaptive", "adaptive", "adaptive", "fixed")):
+def mlmc_case(draw, tier, with_cv=True, modes=("adaptive", "adaptive", "adaptive", "fixed"), low_levels=False):
     law = {"seed": draw(st.integers(1, 10 ** 6)), "base": draw(_f(-1.0, 1.0)), "s_base": draw(_f(0.1, 2.0)),
            "m0": draw(_f(0.01, 1.0)), "alpha": draw(_f(0.5, 2.0)), "s0": draw(_f(0.05, 1.0)),
            "beta": draw(_f(0.5, 3.0)), "cost0": 1.0, "gamma": draw(_f(0.0, 2.0)), "maturity": draw(_f(0.1, 2.0))}
     mode = draw(st.sampled_from(list(modes)))
     l0 = draw(st.integers(2, 4))
-    case = {"law": law, "mode": mode, "initial_level": l0,
+    # Giles' criterion reads three level means (initial level >= 2, the default); with the "run to the maximum level"
+    # criterion of the library one- and two-level runs are legitimate as well (convergence rates given)
+    criteria = "giles"
+    if low_levels and draw(st.integers(0, 3)) == 0:
+        criteria = "run-to-max"
+        l0 = draw(st.integers(0, 2))
+    case = {"law": law, "mode": mode, "initial_level": l0, "criteria": criteria,
             "maximum_level": draw(st.integers(l0, 8)) if mode == "adaptive" else draw(st.integers(l0, 6)),
             "n0": draw(st.integers(2, 40)), "rmse_rel": draw(_f(0.03, 0.5)),
             "rates": draw(st.sampled_from(["given", "regressed", "mixed"])),
@@ -28,6 +34,9 @@ def mlmc_case(draw, tier, with_cv=True, modes=("adaptive", "adaptive", "adaptive
             "strike": draw(_f(-1.0, 1.0)), "payoff": draw(st.sampled_from(["forward", "call", "put"])),
             "controls": draw(st.lists(st.tuples(_f(-1.0, 1.0), _f(-1.0, 1.0)), max_size=2)) if with_cv else []}
     case["rmse"] = float(f"{case['rmse_rel'] * case['notional'] * case['df'] * law['s_base']:.6g}")
+    if criteria == "run-to-max":
+        case["rates"] = "given"
+        case["maximum_level"] = min(case["maximum_level"], l0 + 3)
     return case
 
 
@@ -64,8 +73,12 @@ def build_engine(case, ledger_key, mode="hash", seed=None, nb_of_processes=1, sp
         rates = ConvergenceRates()
     crit_calls, alloc_calls = [], []
 
+    from rpylib.montecarlo.multilevel.criteria import criteria_run_to_maximum_level
+
+    the_criteria = criteria_run_to_maximum_level if case.get("criteria") == "run-to-max" else criteria_giles
+
     def crit(alpha, ml, rmse):
-        r = bool(criteria_giles(alpha, ml, rmse))
+        r = bool(the_criteria(alpha, ml, rmse))
         crit_calls.append({"alpha": float(alpha), "ml": np.array(ml, dtype=float).copy(), "rmse": float(rmse), "result": r})
         return r
 
